@@ -194,7 +194,7 @@ def check_pel(ctx, pel, plugins, rng):
             mod, ref, words = src_expected_call(s)
             if mod:
                 beh = ref[7:8]
-                if beh in "EFDC":
+                if beh in "EFDCAB":
                     if "SRC Details" in entry:
                         ctx.violation("C18/src-details-after-failure", "SRC parser %s (behaviour %s) failed/returned nothing but SRC Details "
                                       "is %r" % (mod, beh, entry["SRC Details"]), data=data)
@@ -225,7 +225,7 @@ def containment(ctx, pel, rng, base_doc):
     """A failing parser affects only its own section: flip every failing fixture section to behaviour OK and compare the rest."""
     failing = [i for i, s in enumerate(pel.sections) if s.kind in ("UD", "ED") and
                s.m.get("flavor") in ("fx_raise", "fx_none", "fx_importerror", "fx_keyerror")]
-    fsrc = [i for i, s in enumerate(pel.sections) if s.kind == "SRC" and src_expected_call(s)[0] and s.m["ascii"][7:8] in "EF"]
+    fsrc = [i for i, s in enumerate(pel.sections) if s.kind == "SRC" and src_expected_call(s)[0] and s.m["ascii"][7:8] in "EFAB"]
     if not failing and not fsrc:
         return
     import copy
